@@ -35,7 +35,10 @@ from lxml import etree                                                          
 def load_to_string():
     src = open(os.path.join(REPO, 'depccg/printer/__init__.py'), encoding='utf-8').read()
     tree = ast.parse(src)
-    keep = [n for n in tree.body if isinstance(n, ast.FunctionDef) or (isinstance(n, ast.Assign) and any(isinstance(t, ast.Name) and t.id == '_formatters' for t in n.targets))]
+    # every top-level statement of the module is kept (functions, tables, constants); its imports are tried one by one - those that need optional third-party
+    # packages fail and the names they would bind are the stand-ins below (bound first, so a successful import overrides them)
+    imports = [n for n in tree.body if isinstance(n, (ast.Import, ast.ImportFrom))]
+    keep = [n for n in tree.body if not isinstance(n, (ast.Import, ast.ImportFrom))]
     mod = ast.Module(body=keep, type_ignores=[])
     g = dict(json=json, StringIO=io.StringIO, etree=etree, ScoredTree=ScoredTree, get_global_language=lang.get_global_language,
              SEMANTIC_TEMPLATES={}, ccg2lambda=None, to_mathml=html.to_mathml, to_jigg_xml=jigg_xml.to_jigg_xml, to_prolog_en=prolog.to_prolog_en,
@@ -43,6 +46,16 @@ def load_to_string():
              ptb_of=ptb.ptb_of, auto_of=auto.auto_of, auto_extended_of=auto.auto_extended_of)
     import typing
     g.update(List=typing.List, Optional=typing.Optional, Union=typing.Union)
+    g['__name__'] = 'depccg.printer'
+    g['__package__'] = 'depccg.printer'
+    for imp in imports:
+        standins = dict(g)
+        try:
+            exec(compile(ast.Module(body=[imp], type_ignores=[]), 'depccg/printer/__init__.py[import]', 'exec'), g)
+        except Exception:       # noqa  (chainer / nltk / simplejson missing here)
+            pass
+        for k in ('ccg2lambda', 'SEMANTIC_TEMPLATES'):
+            g[k] = standins[k]          # the semantics back end is never available here: keep the stand-ins
     exec(compile(mod, os.path.join(REPO, 'depccg/printer/__init__.py'), 'exec'), g)
     return g['to_string']
 
@@ -87,6 +100,10 @@ def grammar_labels(which):
     src = open(os.path.join(REPO, f'depccg/grammar/{which}.py'), encoding='utf-8').read()
     tree = ast.parse(src)
     binary, unary = set(), set()
+    # labels kept as immutable module-level constants: NAME = ("fa", ">")
+    for st in tree.body:
+        if isinstance(st, ast.Assign) and isinstance(st.value, ast.Tuple) and len(st.value.elts) == 2 and all(isinstance(e, ast.Constant) and isinstance(e.value, str) for e in st.value.elts):
+            binary.add((st.value.elts[0].value, st.value.elts[1].value))
     for fn in tree.body:
         if not isinstance(fn, ast.FunctionDef):
             continue
